@@ -48,8 +48,13 @@ class RunTimeout(BaseException):
     pass
 
 
-def _alarm(_sig, _frm):
+def _alarm(_sig, frm):
+    # record where the run was when the watchdog fired (reported with the harness error)
+    _alarm.where = "".join(traceback.format_stack(frm, limit=8))
     raise RunTimeout()
+
+
+_alarm.where = ""
 
 
 def execute(wl: Workload, ch: Chooser, keep_events: bool = True) -> dict:
@@ -64,7 +69,7 @@ def execute(wl: Workload, ch: Chooser, keep_events: bool = True) -> dict:
     except Violation as v:
         out["violation"] = {"inv": v.inv, "msg": v.msg, "sig": v.sig, "prop": v.prop}
     except RunTimeout:
-        out["harness_error"] = f"run exceeded {wl.run_timeout}s of real time"
+        out["harness_error"] = f"run exceeded {wl.run_timeout}s of real time at\n{_alarm.where}"
     except KeyboardInterrupt:
         raise
     except BaseException:  # noqa: BLE001  harness error, reported apart from VIOLATION
@@ -128,7 +133,10 @@ def _run_chunk(args):
         "_sigs": set(),
     }
     t0 = _perf()
-    for i in range(start, stop):
+    order = range(start, stop)
+    if os.environ.get("VERIF_REVERSE"):  # determinism self-test: same runs, other execution order inside the process
+        order = range(stop - 1, start - 1, -1)
+    for i in order:
         ch = Chooser(seed=stream_seed(seed, mod.ID, wl.name, i))
         res = execute(wl, ch)
         tr: Trace = res["trace"]
@@ -185,7 +193,7 @@ def _workload_by_name(mod, name: str) -> Workload:
     raise KeyError(name)
 
 
-def minimise_and_write(mod, v: dict, seed: int, tier: str) -> str:
+def minimise_and_write(mod, v: dict, seed: int, tier: str, do_shrink: bool = True) -> str:
     wl = _workload_by_name(mod, v["workload"])
     target = (v["inv"], v["sig"])
 
@@ -201,7 +209,10 @@ def minimise_and_write(mod, v: dict, seed: int, tier: str) -> str:
         raise RuntimeError(
             f"violation of run {v['index']} did not reproduce in-process: {first['violation']} vs {target}"
         )
-    best, execs = shrink(first["choices"], first["spans"], test, max_exec=getattr(mod, "SHRINK_EXECS", 400), max_wall=getattr(mod, "SHRINK_WALL", 60.0))
+    if do_shrink:
+        best, execs = shrink(first["choices"], first["spans"], test, max_exec=getattr(mod, "SHRINK_EXECS", 400), max_wall=getattr(mod, "SHRINK_WALL", 40.0))
+    else:
+        best, execs = first["choices"], 0
     final = _replay_once(mod, wl, best)
     fv = final["violation"]
     assert fv is not None
@@ -251,6 +262,17 @@ def replay_file(mod, path: str) -> int:
     return 1
 
 
+def run_one(mod, wl_name, seed: int, index: int) -> int:
+    wl = _workload_by_name(mod, wl_name) if wl_name else mod.WORKLOADS[0]
+    faulthandler.enable()
+    ch = Chooser(seed=stream_seed(seed, mod.ID, wl.name, index))
+    res = execute(wl, ch)
+    for e in _jsonable(res["trace"].events):
+        print("  ", json.dumps(e)[:300])
+    print("digest", res["digest"][:16], "violation", res["violation"], "harness_error", res["harness_error"])
+    return 0
+
+
 def _fresh_replay_ok(mod_name: str, path: str) -> tuple[bool, str]:
     """Replay in a fresh interpreter; must reproduce the same violation and digest."""
     cmd = [os.path.join(HOME, "check"), mod_name, "--replay", path]
@@ -277,6 +299,14 @@ def run_check(mod, tier: str, seed: int, workers: int, runs_override: Optional[i
         for s in range(0, n, wl.chunk):
             tasks.append((wi, seed, s, min(n, s + wl.chunk), want_digests, 2 if first else 0))
             first = False
+    # Warm-up in the parent: one throw-away run per workload so that numba-compiled code, lazy imports and caches
+    # are inherited by the forked workers instead of being rebuilt in each of them (results are discarded; every run
+    # starts from envseam.pin(), so this does not influence any recorded run).
+    for wi, wl in enumerate(mod.WORKLOADS):
+        if (only and wl.name != only) or not per_wl_runs.get(wl.name):
+            continue
+        for k in range(getattr(mod, "WARMUP_RUNS", 2)):
+            execute(wl, Chooser(seed=stream_seed(seed, mod.ID, wl.name + "/warmup", k)))
     results: list = [None] * len(tasks)
     pool_error = None
     reduced = False
@@ -342,7 +372,10 @@ def run_check(mod, tier: str, seed: int, workers: int, runs_override: Optional[i
     for v in tot["violations"]:
         by_sig.setdefault((v["inv"], v["sig"]), []).append(v)
     reported = []
-    for (inv, sig), vs in sorted(by_sig.items()):
+    n_minimised = 0
+    max_minimise = int(os.environ.get("VERIF_MAX_MINIMISE", "3"))
+    # most frequent classes first: those are minimised; the rest are listed with their raw replay
+    for (inv, sig), vs in sorted(by_sig.items(), key=lambda kv: (-len(kv[1]), kv[0])):
         full = [v for v in vs if "choices" in v]
         v0 = min(full, key=lambda v: (v["workload"], v["index"]))
         kf = findings.match(known, mod.ID, inv, sig)
@@ -351,7 +384,8 @@ def run_check(mod, tier: str, seed: int, workers: int, runs_override: Optional[i
             reported.append({"inv": inv, "sig": sig, "count": len(vs), "known": True})
             continue
         try:
-            path = minimise_and_write(mod, v0, seed, tier)
+            n_minimised += 1
+            path = minimise_and_write(mod, v0, seed, tier, do_shrink=n_minimised <= max_minimise)
             ok, out = _fresh_replay_ok(mod.ID, path)
             if not ok:
                 lines.append(f"HARNESS-ERROR property={mod.ID} replay of {path} in a fresh interpreter did not reproduce:\n{out}")
@@ -369,7 +403,10 @@ def run_check(mod, tier: str, seed: int, workers: int, runs_override: Optional[i
         exit_code = max(exit_code, 1)
 
     if tot["harness_errors"] or pool_error:
-        exit_code = 2
+        # Harness errors are reported apart from violations and never turn into exit 0. A replayable violation found in
+        # the same batch stays a violation (exit 1): it was re-executed in a fresh interpreter before being printed.
+        if not any(not r["known"] for r in reported):
+            exit_code = 2
         if pool_error:
             lines.append(f"HARNESS-ERROR property={mod.ID} {pool_error}")
         for he in tot["harness_errors"][:3]:
